@@ -64,13 +64,15 @@ for (p_, k, l_, m_, t, cap) in ((0, 1, 1, 63, "quick", 900), (3, 1, 2, 63, "quic
       bounds="%d arbitrary pre-buffered bytes, %d symbolic source events (Pending/End/Item/Err) then Pending, messages of %d symbolic "
              "bytes, limit: any Option<usize>, yield_threshold: any usize, pending error: any" % (p_, k, l_),
       outside=["messages longer than 2 bytes", "more than 2 source events per poll", "compressed path"],
+      may_be_uncovered=(["pending", "end"] if p_ > 0 else []) + (["error saved for the next poll"] if (p_ == 0 and k == 1) else []),
       unwindset=UW_MAPS + [("codec::encode::EncodedBytes<", k + 2)])
 for p_, l_ in ((0, 0), (0, 2), (6, 1)):
     H("enc_item_p%d_l%d" % (p_, l_), ["C01", "C03", "C06"], "core", *ENC, cap_s=600,
       obligation="E1/W1: encode_item appends exactly [0, BE32(len), payload] behind the bytes already buffered (earlier frames untouched); "
                  "refused with OUT_OF_RANGE iff len > limit",
       functions=["tonic::codec::encode::encode_item", "tonic::codec::encode::finish_encoding", "tonic::codec::buffer::EncodeBuf"],
-      bounds="%d pre-buffered symbolic bytes, payload of %d symbolic bytes, any Option<usize> limit" % (p_, l_))
+      bounds="%d pre-buffered symbolic bytes, payload of %d symbolic bytes, any Option<usize> limit" % (p_, l_),
+      may_be_uncovered=["refused"] if l_ == 0 else [])
 H("enc_finish_slice", ["C06", "C03", "C01"], "core", *ENC,
   obligation="L2/W1: finish_encoding writes [0, BE32(len)] and leaves the payload alone iff len <= limit, else OUT_OF_RANGE",
   functions=["tonic::codec::encode::finish_encoding"], bounds="all slices of length 5..=12 (symbolic length), any Option<usize> limit")
@@ -90,14 +92,14 @@ H("st_h2_reason_map", ["C04"], "transport", *ST, obligation="H6: code_from_h2 ov
 H("st_to_h2_error", ["C04"], "transport", *ST, obligation="H6: to_h2_error: CANCELLED => CANCEL, everything else INTERNAL_ERROR",
   functions=["tonic::Status::to_h2_error"], bounds="all 17 codes")
 for n in (1, 2):
-    H("st_fhm_status_%d" % n, ["C04", "C02"], "core", *ST, cap_s=600, stubs=[HTTPH],
+    H("st_fhm_status_%d" % n, ["C04", "C02"], "core", *ST, cap_s=2400, tier="thorough", optional=True, stubs=[HTTPH],
       obligation="H4: from_header_map on a real 1-entry map: code == reference parse of the grpc-status bytes, no panic",
       functions=["tonic::Status::from_header_map", "tonic::Code::from_bytes", "http::HeaderMap::{insert,get,clone,remove}"],
       bounds="grpc-status value: all %d-byte header-legal values" % n)
 H("st_fhm_absent", ["C04"], "core", *ST, cap_s=300, stubs=[HTTPH], obligation="H4: no grpc-status => None",
   functions=["tonic::Status::from_header_map"], bounds="empty map")
-for n, t in ((2, "quick"), (3, "thorough")):
-    H("st_fhm_details_%d" % n, ["C04"], "core", *ST, cap_s=900 if t == "quick" else 2400, tier=t, stubs=[HTTPH],
+for n, t in ((2, "thorough"), (3, "thorough")):
+    H("st_fhm_details_%d" % n, ["C04"], "core", *ST, cap_s=2400, tier=t, optional=True, stubs=[HTTPH],
       obligation="H4: from_header_map with arbitrary grpc-status-details-bin bytes: never panics; bytes outside the base64 alphabet "
                  "=> UNKNOWN error status (regression check for the fixed F1 panic)",
       functions=["tonic::Status::from_header_map", "tonic::util::base64::STANDARD (padding-indifferent)"],
@@ -105,20 +107,21 @@ for n, t in ((2, "quick"), (3, "thorough")):
 
 CMP = ("tonic/src/codec/compression.rs", "tonic/codec_compression.rs")
 UW_NAME = [("http::header::name::", 24), ("HdrName", 24), ("parse_hdr", 24)]
-H("cmp_enabled_set", ["C05"], "comp", *CMP, cap_s=600,
+H("cmp_enabled_set", ["C05"], "comp_vb", *CMP, cap_s=3600, tier="thorough", optional=True,
   obligation="N3: EnabledCompressionEncodings after any <=4 enable() calls: is_enabled/is_empty match the history; the accept header "
              "value is exactly the enabled names in order + 'identity'; pop removes the last",
   functions=["EnabledCompressionEncodings::{enable,is_enabled,is_empty,pop,into_accept_encoding_header_value}"],
   bounds="all sequences of <= 4 enable() calls over {gzip,deflate,zstd}")
 for nm, val in (("gzip", "gzip"), ("deflate", "deflate"), ("identity", "identity"), ("sym4", "any 4 header-legal bytes")):
-    H("cmp_enc_hdr_" + nm, ["C05"], "comp", *CMP, cap_s=900, stubs=[HTTPH],
+    H("cmp_enc_hdr_" + nm, ["C05"], "comp_vb", *CMP, cap_s=3600, tier="thorough", optional=True, stubs=[HTTPH],
       obligation="N2: from_encoding_header on a real 1-entry map: Ok(Some(e)) iff the value names e and e is enabled; identity => Ok(None); "
                  "otherwise Err(UNIMPLEMENTED)",
       functions=["CompressionEncoding::from_encoding_header", "http::HeaderMap::{insert,get}"],
       bounds="grpc-encoding = %s; enabled set: any state reachable by <= 4 enable() calls" % val,
       may_be_uncovered=["accepted encoding", "identity", "refused"])
 for nm, val in (("zstd_gzip", "'zstd, gzip'"), ("deflate_id", "'deflate,identity'"), ("sym4", "any 4 header-legal bytes"), ("absent", "header absent")):
-    H("cmp_accept_" + nm, ["C05"], "comp", *CMP, cap_s=900, stubs=[HTTPH],
+    H("cmp_accept_" + nm, ["C05"], "comp", *CMP, cap_s=900 if nm == "absent" else 3600, tier="quick" if nm == "absent" else "thorough",
+      optional=(nm != "absent"), stubs=[HTTPH],
       obligation="N1: from_accept_encoding_header: the result is the first offered (comma-separated, trimmed) encoding that is enabled "
                  "for sending; None if there is none (regression check for fixed F3)",
       functions=["CompressionEncoding::from_accept_encoding_header", "split_by_comma", "http::HeaderMap::{insert,get}"],
@@ -133,16 +136,18 @@ for nm, b, t, cap in (("1", "all 1-byte header-legal values", "quick", 600), ("2
       obligation="G2: try_parse_grpc_timeout on a real 1-entry map == reference grammar (1..8 digits + unit in HMSmun => exact Duration; "
                  "anything else ignored), no panic",
       functions=["tonic::transport::service::grpc_timeout::try_parse_grpc_timeout", "http::HeaderMap::{insert,get(&str)}"],
-      bounds="grpc-timeout value: " + b)
-H("gt_select_min", ["C09"], "transport", *GT, cap_s=1200, stubs=[HTTPH, "tokio::time::sleep stubbed: asserts its argument == min(header, configured) and ends the path (no runtime)"],
+      bounds="grpc-timeout value: " + b,
+      may_be_uncovered=(["well-formed value parsed"] if nm == "1" else []) + (["well-formed value parsed", "malformed value ignored"] if nm == "absent" else []))
+H("gt_select_min", ["C09"], "transport", *GT, cap_s=3600, tier="thorough", optional=True, stubs=[HTTPH, "tokio::time::sleep stubbed: asserts its argument == min(header, configured) and ends the path (no runtime)"],
   obligation="G4: GrpcTimeout::call arms the timer with min(caller grpc-timeout, configured timeout); no timer when both are absent",
   functions=["GrpcTimeout::call", "try_parse_grpc_timeout"],
-  bounds="caller timeout absent / '<digit>S' / '<digit>m'; configured timeout: any Option<Duration>",
+  bounds="caller timeout absent / '<digit>S' / '<digit>m' / malformed '<digit>x'; configured timeout: any Option<Duration>",
   outside=["the race between the inner future and the Sleep in ResponseFuture::poll (needs a tokio timer)"])
 
 RC = ("tonic/src/transport/channel/service/reconnect.rs", "tonic/reconnect.rs")
 for k, t, cap in ((2, "quick", 600), (3, "quick", 900), (4, "thorough", 2400), (5, "thorough", 3600)):
     H("rc_step_k%d" % k, ["C14"], "transport", *RC, tier=t, cap_s=cap, unwindset=UW_MAPS + [("Reconnect<", 2 * k + 4)],
+      may_be_uncovered=["recovery script"] if k < 3 else [],
       obligation="Reconnect from every state (Idle/Connecting/Connected x saved error x lazy/eager x has_been_connected), one poll_ready "
                  "against every fault script of %d events, then one call: no 'service not ready' panic; eager+never-connected reports the "
                  "first connect failure from poll_ready; otherwise a failure is parked, handed to exactly one call (with the id of the "
@@ -156,7 +161,7 @@ for k, t, cap in ((2, "quick", 600), (3, "quick", 900), (4, "thorough", 2400), (
 
 ME = ("tonic/src/metadata/encoding.rs", "tonic/metadata_encoding.rs")
 MM = ("tonic/src/metadata/map.rs", "tonic/metadata_map.rs")
-for n, t, cap in ((0, "quick", 300), (1, "quick", 900), (2, "quick", 1200), (3, "thorough", 3600)):
+for n, t, cap in ((0, "quick", 300), (1, "thorough", 1800), (2, "thorough", 1800), (3, "thorough", 3600)):
     H("md_bin_roundtrip_%d" % n, ["C08", "C04"], "core", *ME, tier=t, cap_s=cap,
       obligation="M3/H3: Binary::from_bytes writes unpadded standard base64 (== arithmetic reference); decode of that and of the '='-padded "
                  "spelling both give back the original bytes",
@@ -166,7 +171,7 @@ H("md_key_classification", ["C08"], "core", *ME, cap_s=600,
   obligation="M4: Binary::is_valid_key(k) <=> k ends with '-bin'; Ascii::is_valid_key == !Binary",
   functions=["metadata::encoding::{Binary,Ascii}::is_valid_key"], bounds="all ASCII keys of length 0..=7 (symbolic length)")
 for nm in ("te", "user_agent", "content_type", "grpc_status", "grpc_message", "grpc_message_type"):
-    H("md_sanitize_" + nm, ["C08", "C04"], "core", *MM, cap_s=900, stubs=[HTTPH],
+    H("md_sanitize_" + nm, ["C08", "C04"], "core", *MM, cap_s=2400, tier="thorough", optional=True, stubs=[HTTPH],
       obligation="M1: into_sanitized_headers on a real 2-entry map {reserved name, user entry} in either order: reserved name absent, user "
                  "entry intact (reserved names taken from the property statement, not from tonic's array)",
       functions=["MetadataMap::into_sanitized_headers", "MetadataMap::from_headers", "http::HeaderMap::{insert,remove,get}"],
@@ -183,17 +188,17 @@ H("web_find_trailers_12", ["C17"], "web_vb", *WEB, cap_s=900,
 H("web_find_trailers_17", ["C17"], "web_vb", *WEB, tier="thorough", cap_s=3600,
   obligation="U1: find_trailers == independent frame walker", functions=["tonic_web::call::find_trailers"],
   bounds="all buffers of length 0..=17 (symbolic length)")
-H("web_trailers_frame_repeated", ["C16"], "web_vb", *WEB, cap_s=900, stubs=[HTTPH],
+H("web_trailers_frame_repeated", ["C16"], "web_vb", *WEB, cap_s=3600, tier="thorough", optional=True, stubs=[HTTPH],
   obligation="R2: make_trailers_frame/encode_trailers: flag 0x80, BE32 length, one 'name:value\\r\\n' line per trailer *value* "
              "(repeated names included)",
   functions=["tonic_web::call::make_trailers_frame", "tonic_web::call::encode_trailers"],
   bounds="3 trailers over 2 names (one repeated), 1-byte visible-ASCII symbolic values")
-H("web_decode_trailers_colon_repeat", ["C17"], "web_vb", *WEB, cap_s=1200, stubs=[HTTPH],
+H("web_decode_trailers_colon_repeat", ["C17"], "web_vb", *WEB, cap_s=3600, tier="thorough", optional=True, stubs=[HTTPH],
   obligation="U2: decode_trailers_frame: every name with its full value: values containing ':' survive, repeated names keep all values",
   functions=["tonic_web::call::decode_trailers_frame"],
   bounds="frame with two lines for the same name; values of 3 and 1 symbolic visible-ASCII bytes (':' and inner ' ' included)")
-for n, k, t, cap in ((0, 1, "quick", 900), (3, 1, "quick", 900), (6, 1, "quick", 1200), (4, 2, "thorough", 2400), (7, 2, "thorough", 3600)):
-    H("web_client_step_n%d_k%d" % (n, k), ["C17"], "web_vb", *WEB, tier=t, cap_s=cap, stubs=[HTTPH],
+for n, k, t, cap in ((0, 1, "thorough", 3600), (3, 1, "thorough", 3600), (6, 1, "thorough", 3600), (4, 2, "thorough", 3600), (7, 2, "thorough", 3600)):
+    H("web_client_step_n%d_k%d" % (n, k), ["C17"], "web_vb", *WEB, tier=t, cap_s=cap, mem_gb=24, optional=True, stubs=[HTTPH],
       unwindset=UW_MAPS + [("tonic_web::GrpcWebCall<", 2 * k + 4), ("call::GrpcWebCall<", 2 * k + 4)],
       obligation="U3: one poll_frame of the client-side GrpcWebCall from %d arbitrary buffered bytes against every inner-body script of %d "
                  "events: returns within the loop bound; data frames are whole message frames of the received bytes; clean end only if "
@@ -207,7 +212,8 @@ for n in (3, 4, 6):
       obligation="R1: GrpcWebCall::decode_chunk (base64 request): exactly the largest multiple-of-4 prefix is consumed and equals the "
                  "arithmetic reference decoding; the remainder stays buffered unchanged",
       functions=["tonic_web::GrpcWebCall::decode_chunk", "tonic_web::util::base64::STANDARD"],
-      bounds="all %d-character strings over the base64 alphabet" % n)
+      bounds="all %d-character strings over the base64 alphabet" % n,
+      may_be_uncovered=["decoded"] if n < 4 else ["fewer than four characters"])
 
 TY = ("tonic-types/src/richer_error/std_messages/retry_info.rs", "types/retry_info.rs")
 H("ty_retry_delay_conversion", ["C20"], "types", *TY, cap_s=600,
@@ -217,7 +223,7 @@ H("ty_retry_delay_conversion", ["C20"], "types", *TY, cap_s=600,
              "prost_types::Duration::try_from"],
   bounds="all std::time::Duration values (u64 seconds x nanos < 1e9)")
 H("ty_retry_delay_none", ["C20"], "types", *TY, cap_s=300, obligation="Y1: absent delay stays absent", functions=["RetryInfo::new"], bounds="None")
-H("ty_retry_info_any_roundtrip", ["C20"], "types", *TY, cap_s=1800, tier="quick", optional=True,
+H("ty_retry_info_any_roundtrip", ["C20"], "types", *TY, cap_s=3600, tier="thorough", optional=True,
   obligation="Y2 (RetryInfo): detail -> Any (prost encode) -> detail (prost decode) is the identity inside the protobuf range",
   functions=["RetryInfo::into_any", "RetryInfo::from_any_ref", "prost::Message::{encode_to_vec,decode}"],
   bounds="all delays with seconds <= 315576000000, nanos < 1e9")
@@ -225,7 +231,7 @@ H("ty_retry_info_any_roundtrip", ["C20"], "types", *TY, cap_s=1800, tier="quick"
 IC = ("tonic/src/service/interceptor.rs", "tonic/interceptor.rs")
 for nm, b in (("ic_no_headers", "empty header map"), ("ic_reserved_header", "one reserved header (te: trailers)"),
               ("ic_insert_metadata", "one reserved header; the interceptor inserts one metadata entry on accept")):
-    H(nm, ["C12"], "core", *IC, cap_s=1200, stubs=[HTTPH],
+    H(nm, ["C12"], "core_vb", *IC, cap_s=1200, mem_gb=16, stubs=[HTTPH],
       obligation="InterceptedService::call + ResponseFuture::poll: accept => wrapped service called exactly once with the same method, "
                  "version, URI, body, headers (reserved name included) plus the interceptor's change; reject => wrapped service never "
                  "called and the caller gets HTTP 200 + content-type application/grpc + grpc-status = the interceptor's code",
@@ -234,16 +240,20 @@ for nm, b in (("ic_no_headers", "empty header map"), ("ic_reserved_header", "one
       bounds="method: 6 standard methods (symbolic), version: 5 (symbolic), accept/reject symbolic, reject code 1..=16 symbolic, body: any u32; " + b,
       outside=["extensions, header maps with more than 2 entries, custom (non-standard) header names on this path"])
 
-for n, t, cap in ((0, "quick", 900), (5, "quick", 900), (6, "quick", 1200)):
-    H("pn_glue_%d" % n, ["C07"], "core", *DEC, tier=t, cap_s=cap, unwindset=UW_MAPS + [("Streaming<", 6)],
+for n, t, cap in ((0, "thorough", 3600), (5, "thorough", 3600), (6, "thorough", 3600)):
+    H("pn_glue_%d" % n, ["C07"], "core_vb", *DEC, tier=t, cap_s=cap, mem_gb=24, optional=True, unwindset=UW_MAPS + [("Streaming<", 5)],
+      extra_cbmc=("--no-pointer-check", "--no-bounds-check"),
+      assumes=["pn_glue_*: CBMC's generic pointer/bounds checks are switched off for this harness only (formula size); its assertions, "
+               "unwinding assertions and panics stay on"],
       stubs=["StreamingInner::poll_frame replaced by a 3-event scripted stub (Pending / Ok(None) / Ok(Some) / Err) in this harness only; "
-             "its own behaviour is decided by pf_eof_*"],
+             "its own behaviour is decided by pf_eof_*",
+             "crate::status::infer_grpc_status replaced by a stub returning any of Ok / Err(None) / Err(Some(status)) in this harness only"],
       obligation="T1b: Streaming::poll_next glue: any Err coming out of decode_chunk (real) or poll_frame (scripted) is yielded once and "
                  "leaves the stream terminal (State::Error(None)); a terminal stream returns None without polling the body or touching "
                  "the buffer; a yielded message is a complete legal frame of the buffered input",
       functions=["tonic::codec::decode::Streaming::poll_next", "Streaming::decode_chunk", "StreamingInner::decode_chunk",
                  "StreamingInner::fail", "StreamingInner::response"],
-      bounds="%d symbolic buffered bytes, any limit, 3 scripted poll_frame outcomes, start state ReadHeader or Error(None)" % n)
+      bounds="%d symbolic buffered bytes, any limit, any direction, 2 scripted poll_frame outcomes, start state ReadHeader or Error(None)" % n)
 
 RQ = ("tonic/src/request.rs", "tonic/request.rs")
 RQ_REWRITE = [("tonic/src/request.rs", 'Some(format!("{}{}", value, unit))', 'Some(self::verif_request::record_timeout(value, unit))', 1)]
@@ -260,6 +270,25 @@ for nm, b in (("subsecond_units", "secs < 131_072, any nanos (units n/u/m and th
                  "core::time::Duration::{as_nanos,as_micros,as_millis,as_secs}"],
       bounds="all Durations with " + b,
       outside=["durations above 99_999_999 hours (documented expect() panic)"])
+
+H("st_add_header_msg1", ["C04"], "core", *ST, cap_s=3600, tier="thorough", optional=True, stubs=[HTTPH],
+  obligation="H2 (write side): Status::to_header_map for any code and any one-character ASCII message: grpc-status = decimal code, "
+             "grpc-message = the character itself or %XX exactly for the gRPC escape set (controls, space, \" # % < > ` ? { }), no details header",
+  functions=["Status::to_header_map", "Status::add_header", "percent_encoding::percent_encode(ENCODING_SET)"],
+  bounds="all 17 codes x all 128 one-byte messages", outside=["messages longer than one byte; the read side (percent_decode) - see P33"])
+
+H("st_add_header_repeated_md", ["C08", "C04", "C02"], "core", *ST, cap_s=3600, tier="thorough", optional=True, stubs=[HTTPH],
+  obligation="M2/H: Status::to_header_map with metadata holding one key with two values: both values arrive, in order, next to grpc-status",
+  functions=["Status::to_header_map", "Status::add_header", "MetadataMap::into_sanitized_headers", "http::HeaderMap::{append,clone,extend,get_all}"],
+  bounds="one user key with two 1-byte visible-ASCII symbolic values")
+
+H("web_find_trailers_7", ["C17"], "web_vb", *WEB, cap_s=600,
+  obligation="U1: find_trailers == independent frame walker", functions=["tonic_web::call::find_trailers"],
+  bounds="all buffers of length 0..=7 (symbolic length)", may_be_uncovered=["trailers after a message", "whole messages, no trailers yet"])
+H("web_trailers_frame_len_10", ["C17"], "web_vb", *WEB, cap_s=600,
+  obligation="U3 kernel: trailers_frame_len == Some(5 + BE32 length) iff that many bytes are buffered (the client loop waits for the whole "
+             "trailers frame before parsing it)", functions=["tonic_web::call::trailers_frame_len"],
+  bounds="all buffers of length 0..=10 (symbolic length)")
 
 
 def select(pid, tier, seed=0):
